@@ -422,6 +422,21 @@ class MemoryTags(Tags):
         )
         if result != dest_dict:
             to_tags._set_tag_dict(result)
+        # Like InterTags.merge: the master of a bound destination is merged to
+        # individually unless the caller asked for it to be left alone.
+        master = None
+        if not ignore_master and getattr(to_tags, "branch", None) is not None:
+            master = to_tags.branch.get_master_branch()
+        if master is not None:
+            with master.lock_write():
+                master_dict = master.tags.get_tag_dict()
+                result, extra_updates, extra_conflicts = _reconcile_tags(
+                    source_dict, master_dict, overwrite, selector
+                )
+                if result != master_dict:
+                    master.tags._set_tag_dict(result)
+            updates.update(extra_updates)
+            conflicts = conflicts + [c for c in extra_conflicts if c not in conflicts]
         return updates, conflicts
 
 
